@@ -334,11 +334,14 @@ def layout_facts(t):
 
 # ----------------------------------------------------------------------------- run context
 class Ctx:
-    def __init__(self, prop, tier="quick", seed=0):
+    def __init__(self, prop, tier="quick", seed=0, worker=(0, 1)):
         self.prop = prop
         self.tier = tier
         self.seed = seed
-        self.rng = random.Random(seed * 1000003 + int(prop[1:]))
+        # thorough runs are sharded over worker processes: (index, count); deterministic
+        # enumerations may shard with `ctx.mine(k)`, random streams differ per worker
+        self.worker = worker
+        self.rng = random.Random(seed * 1000003 + int(prop[1:]) + 7919 * worker[0])
         self.t0 = time.time()
         self.evaluations = 0
         self.distinct = set()
@@ -363,6 +366,45 @@ class Ctx:
 
     def quick(self):
         return self.tier == "quick"
+
+    def mine(self, k):
+        """True if item number k of a deterministic enumeration belongs to this worker"""
+        return k % self.worker[1] == self.worker[0]
+
+    def dump(self):
+        """state of a worker, for the parent to merge"""
+        return {"evaluations": self.evaluations, "distinct": sorted(self.distinct), "nontrivial": self.nontrivial,
+                "samples": self.samples, "dist": self.dist, "violations": self.violations,
+                "divergences": self.divergences[:50], "n_divergences": len(self.divergences),
+                "known_hits": self.known_hits, "notes": self.notes, "exhaustive": self.exhaustive, "rule": self.rule,
+                "driver_calls": self._driver.calls if self._driver else 0,
+                "trusted": list(getattr(self, "trusted", [])), "assumptions": list(getattr(self, "assumptions", []))}
+
+    def merge(self, d):
+        self.evaluations += d["evaluations"]
+        new = set(d["distinct"]) - self.distinct
+        self.distinct |= new
+        # non-trivial distinct cases: a worker's own count is exact for its shard; across workers the same
+        # case may repeat, so scale by the fraction of its distinct cases that are new here (conservative)
+        if d["distinct"]:
+            self.nontrivial += int(d["nontrivial"] * len(new) / len(d["distinct"]))
+        if len(self.samples) < 3:
+            self.samples += d["samples"][:3 - len(self.samples)]
+        for k, v in d["dist"].items():
+            self.dist[k] = self.dist.get(k, 0) + v
+        self.violations += d["violations"]
+        self.divergences += d["divergences"]
+        for k, v in d["known_hits"].items():
+            if k in self.known_hits:
+                self.known_hits[k]["n"] += v["n"]
+            else:
+                self.known_hits[k] = v
+        self.notes += [n for n in d["notes"] if n not in self.notes]
+        self.exhaustive = self.exhaustive or d["exhaustive"]
+        self.rule = self.rule or d["rule"]
+        self.extra_driver_calls = getattr(self, "extra_driver_calls", 0) + d["driver_calls"]
+        self.trusted = sorted(set(getattr(self, "trusted", [])) | set(d["trusted"]))
+        self.assumptions = sorted(set(getattr(self, "assumptions", [])) | set(d["assumptions"]))
 
     def count(self, key, n=1):
         self.dist[key] = self.dist.get(key, 0) + n
